@@ -768,6 +768,29 @@ def r_py_method(rep, f):
     if b is None:
         rep.inconc(key0, key0 + ":anchor", "impl From<&str> for Method not found")
         return
+    # the conversion is a total function of a string: evaluate it exactly on the documented names, in several spellings
+    want_ = {"RK45": "DOPRI5", "DOPRI5": "DOPRI5", "RK23": "RK23", "DOP853": "DOP853", "RADAU": "RADAU", "BDF": "BDF", "RK4": "RK4"}
+    try:
+        from cxs import CxS
+        got_, case_ok = {}, True
+        for k_, v_ in want_.items():
+            for sp_ in (k_, k_.lower(), k_.capitalize()):
+                r_ = CxS(f).call_fn(b["def"], [sp_])
+                g_ = (r_.get("__variant") or "?").rsplit("::", 1)[-1] if isinstance(r_, dict) else repr(r_)
+                if sp_ == k_:
+                    got_[k_] = g_
+                elif g_ != v_ and k_ not in ("RK45", "DOPRI5"):      # the default hides the spelling of these two
+                    case_ok = False
+        for k_, v_ in want_.items():
+            if got_[k_] == v_:
+                rep.ok(key0, "%s:%s" % (key0, k_), "%r -> Method::%s (evaluated)" % (k_, v_))
+            else:
+                rep.violation(key0, "%s:%s" % (key0, k_), "method name %r selects Method::%s (documented: %s)" % (k_, got_[k_], v_), b["body"].get("sp"))
+        (rep.ok(key0, key0 + ":case", "names are matched case-insensitively ('Radau', 'radau')") if case_ok else
+         rep.violation(key0, key0 + ":case", "method names are matched case-sensitively: the documented 'Radau' would fall back to the default", b["body"].get("sp")))
+        return
+    except Exception as ex_:
+        rep.note("%s exact evaluation of Method::from(&str) not possible (%s): reading the match table instead" % (key0, str(ex_)[:120]))
     ms = tast.find(b["body"], lambda z: z.get("k") == "Match")
     if len(ms) != 1:
         rep.inconc(key0, key0 + ":match", "match not found")
